@@ -559,12 +559,26 @@ func runFD04(p *Prog, r *RuleRun) {
 						users = append(users, *cv.Referrers()...)
 					}
 				}
+				parses := parsesFrameHeaders(fn)
 				for _, ref := range users {
-					if c, ok := ref.(*ssa.Call); ok && strings.HasSuffix(eventName(c), ".ReadAt") {
+					c, ok := ref.(*ssa.Call)
+					if !ok {
+						continue
+					}
+					if strings.HasSuffix(eventName(c), ".ReadAt") {
 						used = true
 					}
+					// or the offset is handed to a helper of the package that reads (and parses) the header there
+					if callee := c.Call.StaticCallee(); callee != nil && callee.Pkg == fn.Pkg && callee.Blocks != nil {
+						for i, a := range c.Call.Args {
+							if (a == ssa.Value(phi) || isConvertOf(a, phi)) && i < len(callee.Params) && paramIsReadAtOffset(callee, callee.Params[i]) {
+								used = true
+								parses = parses || parsesFrameHeaders(callee)
+							}
+						}
+					}
 				}
-				if !used || !parsesFrameHeaders(fn) {
+				if !used || !parses {
 					continue // not a frame scan (e.g. a chunked read of a known byte range)
 				}
 				n++
@@ -613,6 +627,23 @@ func runFD04(p *Prog, r *RuleRun) {
 	if n == 0 {
 		r.Fail("scan-loops", "?", "no frame scan loop (ReadAt at a loop-carried offset) found in the recovery/dump paths")
 	}
+}
+
+func isConvertOf(v ssa.Value, x ssa.Value) bool {
+	cv, ok := v.(*ssa.Convert)
+	return ok && cv.X == x
+}
+
+// paramIsReadAtOffset: prm (possibly converted) is the offset argument of a ReadAt in fn.
+func paramIsReadAtOffset(fn *ssa.Function, prm *ssa.Parameter) bool {
+	return bodyHas(fn, func(ins ssa.Instruction) bool {
+		c, ok := ins.(*ssa.Call)
+		if !ok || !strings.HasSuffix(eventName(c), ".ReadAt") {
+			return false
+		}
+		off := c.Call.Args[len(c.Call.Args)-1]
+		return off == ssa.Value(prm) || isConvertOf(off, prm)
+	})
 }
 
 // parsesFrameHeaders: does fn decode frame headers (calls a function returning the in-memory frame header type)?
